@@ -110,7 +110,8 @@ def make_pedigree(rng, name=None, shuffle_order=None):
                 if tau[i][j] == 2 and ploidies[parents[i][j]] >= 4 and rng.random() < 0.5:
                     lam[i, j] = float(rng.choice([0.1, 0.3, 0.9]))
             else:
-                err[i, j] = 1.0 if rng.random() < 0.5 else float(rng.uniform(0, 1))  # ignored for unknown parents
+                # ignored for unknown parents (the user's --gamete-error applies to every edge of the file, 0 included)
+                err[i, j] = [1.0, float(rng.uniform(0, 1)), 0.0, e][int(rng.integers(4))]
     freqs = np.full(n_haps, 1.0 / n_haps) if rng.random() < 0.4 else np.maximum(rng.dirichlet(np.ones(n_haps)), 0.02)
     freqs = freqs / freqs.sum()
     # reads: unequal numbers of distinct reads per sample, padded with NaN reads of count 0
